@@ -42,6 +42,23 @@ class C06(InvProp):
                 if l['status'] == 'OPEN' and rng.chance(0.3):
                     l['cv'] = True
                 scn['links'].insert(own[0] if (own and rng.chance(0.6)) else len(scn['links']), l)
+        for tk in [n for n in scn['nodes'] if n['type'] == 'T']:
+            if rng.chance(0.2):
+                # a pump that discharges directly into the tank (the tank is its end node) from a low reservoir of its own
+                rid = 'RP' + tk['id']
+                lift = tk['elev'] + tk['max'] + rng.uni(3.0, 15.0)
+                scn['nodes'].append({'id': rid, 'type': 'R', 'head': round(tk['elev'] - rng.uni(5.0, 30.0), 2), 'pattern': None})
+                area = 3.14159 * tk['diam'] ** 2 / 4.0
+                qd = max(0.002, area * (tk['max'] - tk['min']) / (scn['options']['duration'] * rng.uni(0.15, 0.6)))
+                hd = lift - scn['nodes'][-1]['head']
+                cname = 'C%d' % (len(scn['curves']) + 1)
+                if rng.chance(0.5):
+                    scn['curves'][cname] = {'type': 'HEAD', 'points': [[round(qd, 6), round(hd, 3)]]}
+                    scn['links'].append({'id': 'up' + tk['id'], 'type': 'pump', 'a': rid, 'b': tk['id'], 'status': 'OPEN', 'speed': 1.0, 'pattern': None,
+                                         'kind': 'HEAD', 'curve': cname})
+                else:
+                    scn['links'].append({'id': 'up' + tk['id'], 'type': 'pump', 'a': rid, 'b': tk['id'], 'status': 'OPEN', 'speed': 1.0, 'pattern': None,
+                                         'kind': 'POWER', 'power': round(1000.0 * 9.81 * qd * hd, 1)})
         if rng.chance(0.5):
             gen.add_level_controls(rng, scn, rng.irange(1, 3))
         if rng.chance(0.3):
